@@ -113,7 +113,9 @@ EXP_APPS = []
 
 
 def sexp(x):
-    if not is_sym(x):
+    # During a symbolic exploration exp is *always* the uninterpreted function, also at concrete points: a float value of
+    # exp(1.0) is only an approximation of e and would not be congruent with EXP(1) reached along a symbolic route
+    if not is_sym(x) and (Ctx.cur is None or isinstance(x, _np.ndarray) or _isinf(x) or _isnan(x)):
         return _math.exp(x) if not isinstance(x, _np.ndarray) else _np.exp(x)
     e = lift(x)
     EXP_APPS.append(e)
@@ -412,7 +414,7 @@ class ShimNP:
     absolute = abs
 
     def exp(self, a):
-        if not has_sym(a):
+        if not has_sym(a) and Ctx.cur is None:
             return _wrap_result(_np.exp(conc(a)))
         return _elementwise(sexp, a)
 
